@@ -57,3 +57,8 @@ Proof. exact slow_but_live_peer_is_timed_out. Qed.
 
 Example C16_nonvacuous : on_grid 1000 1500 (fst (fst (tick (init (options 0 1000 1500))))) 0.
 Proof. unfold on_grid. vm_compute. repeat split; auto; discriminate. Qed.
+
+(* an answer that has arrived when the task runs is honoured even if a tick is due in the same poll *)
+Theorem C16_pong_with_tick_counts : forall s d, s_running s = true ->
+  let '(s', out) := step s (AdvPong d) in s_running s' = true /\ nth_error out 2 = Some 0.
+Proof. exact pong_with_tick_counts. Qed.
